@@ -44,6 +44,8 @@ class S:   # suite
     def lines(self):
         out = [f"begin {self.name} {self.su} {self.td}"]
         for it in self.items:
+            if getattr(it, "file", None) is not None:
+                out.append("file " + it.file.encode("latin-1").hex())
             out += it.lines() if isinstance(it, S) else [it.line()]
         return out + ["end"]
 
@@ -154,14 +156,14 @@ class Obs:
     pass
 
 
-def run_impl(exe, scen_text, reporter, workdir, env=None, timeout=60):
+def run_impl(exe, scen_text, reporter, workdir, env=None, timeout=60, nofile=None):
     os.makedirs(workdir, exist_ok=True)
     for f in os.listdir(workdir):
         p = os.path.join(workdir, f)
         shutil.rmtree(p) if os.path.isdir(p) else os.unlink(p)
     sf = os.path.join(workdir, "scenario.txt")
-    with open(sf, "w") as f:
-        f.write(scen_text)
+    with open(sf, "wb") as f:
+        f.write(scen_text.encode("latin-1"))      # a str is a carrier of bytes here (names may hold any byte)
     e = dict(os.environ)
     e.pop("CGREEN_NO_FORK", None)
     e.pop("CGREEN_PER_TEST_TIMEOUT", None)
@@ -172,7 +174,11 @@ def run_impl(exe, scen_text, reporter, workdir, env=None, timeout=60):
     if env:
         e.update(env)
     o = Obs()
-    proc = subprocess.Popen([exe, sf, reporter, workdir], stdout=subprocess.PIPE, stderr=subprocess.PIPE, env=e, start_new_session=True)
+    def limits():
+        if nofile:
+            import resource
+            resource.setrlimit(resource.RLIMIT_NOFILE, (nofile, nofile))
+    proc = subprocess.Popen([exe, sf, reporter, workdir], stdout=subprocess.PIPE, stderr=subprocess.PIPE, env=e, start_new_session=True, preexec_fn=limits if nofile else None)
     try:
         out, err = proc.communicate(timeout=timeout)
         o.rc, o.stdout, o.stderr = proc.returncode, out.decode("latin-1"), err.decode("latin-1")
@@ -192,7 +198,7 @@ def run_impl(exe, scen_text, reporter, workdir, env=None, timeout=60):
             except Exception:
                 pass
     try:
-        o.events = open(os.path.join(workdir, "events")).read().split("\n")
+        o.events = open(os.path.join(workdir, "events"), encoding="latin-1").read().split("\n")
     except OSError:
         o.events = []
     try:
